@@ -65,7 +65,19 @@ func VerifNativeInit() {
 	seed := int64(1)
 	fmt.Sscan(os.Getenv("VERIF_SEED"), &seed)
 	vRand = rand.New(rand.NewSource(seed))
+	// goroutines left behind by earlier vectors of the same process (a vector that left its
+	// domain is abandoned mid-way) must not count in this vector's census
+	vBaselineGoroutines = map[string]bool{}
+	buf := make([]byte, 1<<20)
+	n := runtime.Stack(buf, true)
+	for _, g := range strings.Split(string(buf[:n]), "\n\n") {
+		if i := strings.Index(g, " ["); i > 0 {
+			vBaselineGoroutines[g[:i]] = true
+		}
+	}
 }
+
+var vBaselineGoroutines map[string]bool
 
 // VerifNativeRun runs a harness natively and reports the assertion ids that failed.
 func VerifNativeRun(f func()) (failed []string, panicked interface{}) {
@@ -365,6 +377,9 @@ func vLiveGoroutines(prefix string) int {
 	n := runtime.Stack(buf, true)
 	cnt := 0
 	for _, g := range strings.Split(string(buf[:n]), "\n\n") {
+		if j := strings.Index(g, " ["); j > 0 && vBaselineGoroutines[g[:j]] {
+			continue // alive before this vector started
+		}
 		i := strings.LastIndex(g, "created by ")
 		if i < 0 {
 			continue
@@ -377,6 +392,9 @@ func vLiveGoroutines(prefix string) int {
 			continue
 		}
 		cnt++
+		if os.Getenv("VERIF_TRACE_LIVE") != "" {
+			fmt.Println("TRACE live goroutine:\n" + g)
+		}
 	}
 	return cnt
 }
